@@ -980,9 +980,10 @@ func mGet(n *Nodis, conn *redis.Conn, cmd redis.Command) {
 		return
 	}
 	execCommand(conn, func() {
-		conn.WriteArray(len(cmd.Args))
-		for _, v := range cmd.Args {
-			value := n.Get(v)
+		// every value is read before the array header is written, so that an error can never follow a partial array
+		values := n.MGet(cmd.Args...)
+		conn.WriteArray(len(values))
+		for _, value := range values {
 			if value == nil {
 				conn.WriteBulkNull()
 				continue
